@@ -53,6 +53,8 @@ partial def pType (cs : List Char) : Except PErr (Ty × List Char) := do
   if w = "b" then pure (.leaf .bool, rest)
   else if w = "null" then pure (.null, rest)
   else if w = "bin" ∨ w = "lbin" ∨ w = "binv" ∨ w = "utf8" ∨ w = "lutf8" ∨ w = "utf8v" then pure (.leaf .bin, rest)
+  else if w = "ivdt" then pure (.leaf (.prod ivdtWidths), rest)
+  else if w = "ivmdn" then pure (.leaf (.prod ivmdnWidths), rest)
   else if w = "f16" then pure (.leaf (.float 2), rest)
   else if w = "f32" then pure (.leaf (.float 4), rest)
   else if w = "f64" then pure (.leaf (.float 8), rest)
@@ -158,7 +160,11 @@ partial def pVal (cs : List Char) : Except PErr (Val × List Char) := do
     let (w, r) := word cs
     match parseInt w with
     | some i => pure (.int i, r)
-    | none => throw .bad
+    | none =>
+      -- interval values: signed components separated by `/`
+      match (w.splitOn "/").mapM parseInt with
+      | some is => if is.length ≥ 2 then pure (.ints is, r) else throw .bad
+      | none => throw .bad
 
 partial def pRows (cs : List Char) (acc : List (List Val)) : Except PErr (List (List Val)) :=
   match cs with
